@@ -354,6 +354,8 @@ func runC18(p *Prog, r *Report, tier string) {
 	r.Trusted = r.Assumptions
 
 	externalAllowObligation(p, r, "D-external", "it may read the clock, randomness, process state or map order inside a dependency")
+	initOnlyObligation(p, r, "D-external")
+	formatObligation(p, r, "D-format")
 	scope := []string{modulePkgs[0], modulePkgs[1], modulePkgs[2]}
 	rules := []string{"D-maprange", "D-forbidden-ref", "D-concurrency", "D-format", "D-float", "D-global-write", "D-global-alias", "D-keeper-field"}
 	counts := map[string]int{}
